@@ -526,6 +526,96 @@ example : releaseAfterRuns [true, false] = some .nil ∧ releaseAfterRuns [false
 
 example : ((btcSignings [[1, 2], [1, 3]]).map (·.sessionId)) = ["0102", "0103"] := by decide
 
+/-! ### Bitcoin: every input carries the signature made for it -/
+
+/-- invariant of the collection loop: a slot is empty or holds the signature of ITS input -/
+private theorem collectFrom_by_id (sigOf : Nat → Bytes)
+    (arrivals : List (Option (Nat × Bytes))) (slots : List Bytes)
+    (harr : ∀ id s, some (id, s) ∈ arrivals → s = sigOf id)
+    (hinv : ∀ i (h : i < slots.length), slots[i] = [] ∨ slots[i] = sigOf i)
+    (ws : List (List Bytes)) (hres : collectFrom slots arrivals = .sent ws) :
+    ws = (List.range slots.length).map fun i => [sigOf i] := by
+  induction arrivals generalizing slots with
+  | nil => simp [collectFrom] at hres
+  | cons a r ih =>
+    cases a with
+    | none =>
+      exact ih slots (fun id s h => harr id s (List.mem_cons_of_mem _ h)) hinv hres
+    | some p =>
+      obtain ⟨id, s⟩ := p
+      have hs : s = sigOf id := harr id s (List.mem_cons_self ..)
+      simp only [collectFrom] at hres
+      split at hres
+      · next hid =>
+        have hinv' : ∀ i (h : i < (slots.set id s).length), (slots.set id s)[i] = [] ∨ (slots.set id s)[i] = sigOf i := by
+          intro i h
+          simp only [List.length_set] at h
+          by_cases e : id = i
+          · subst e; right; simp [hs]
+          · simp only [List.getElem_set, e, if_false]; exact hinv i h
+        split at hres
+        · next hf =>
+          simp only [Collected.sent.injEq] at hres
+          subst hres
+          apply List.ext_getElem
+          · simp [witnesses]
+          · intro i h1 h2
+            simp only [witnesses, List.getElem_map, List.getElem_range, List.cons.injEq, and_true]
+            have hi : i < (slots.set id s).length := by simpa [witnesses] using h1
+            rcases hinv' i hi with h | h
+            · exfalso
+              have := List.all_eq_true.1 hf _ (List.getElem_mem hi)
+              simp [h] at this
+            · exact h
+        · have := ih (slots.set id s) (fun id' s' h => harr id' s' (List.mem_cons_of_mem _ h)) hinv' hres
+          simpa using this
+      · cases hres
+
+/-- **collection by Id.** Let the signing session of input `i` produce the signature `sigOf i`. Whatever the
+    ORDER in which the results arrive, however often a result is repeated, wherever `nil` results are interleaved:
+    if the transaction is sent, input `i` carries exactly `[sigOf i]` — its own witness stack with its own signature -/
+theorem collect_by_id (n : Nat) (sigOf : Nat → Bytes)
+    (arrivals : List (Option (Nat × Bytes))) (harr : ∀ id s, some (id, s) ∈ arrivals → s = sigOf id)
+    (ws : List (List Bytes)) (hres : collect n arrivals = .sent ws) :
+    ws = (List.range n).map fun i => [sigOf i] := by
+  have := collectFrom_by_id sigOf arrivals (List.replicate n []) harr
+    (fun i h => Or.inl (by simp)) ws hres
+  simpa using this
+
+/-- nothing is sent before every input has its signature -/
+theorem collect_waits (n : Nat) (arrivals : List (Option (Nat × Bytes))) (i : Nat) (hi : i < n)
+    (hmiss : ∀ s, some (i, s) ∉ arrivals) : ∀ ws, collect n arrivals ≠ .sent ws := by
+  intro ws
+  have key : ∀ (arr : List (Option (Nat × Bytes))) (slots : List Bytes), (∀ s, some (i, s) ∉ arr) →
+      (h : i < slots.length) → slots[i] = [] → collectFrom slots arr ≠ .sent ws := by
+    intro arr
+    induction arr with
+    | nil => intro slots _ _ _; simp [collectFrom]
+    | cons a r ih =>
+      intro slots hm h he
+      cases a with
+      | none => exact ih slots (fun s hs => hm s (List.mem_cons_of_mem _ hs)) h he
+      | some p =>
+        obtain ⟨id, s⟩ := p
+        have hne : id ≠ i := fun e => hm s (e ▸ List.mem_cons_self ..)
+        simp only [collectFrom]
+        split
+        · have h' : i < (slots.set id s).length := by simpa using h
+          have he' : (slots.set id s)[i] = [] := by simp [hne, he]
+          split
+          · next hf =>
+            exfalso
+            have := List.all_eq_true.1 hf _ (List.getElem_mem h')
+            simp [he'] at this
+          · exact ih _ (fun s' hs => hm s' (List.mem_cons_of_mem _ hs)) h' he'
+        · simp
+  exact key arrivals (List.replicate n []) hmiss (by simpa using hi) (by simp)
+
+example : collect 3 [some (2, [3]), none, some (0, [1]), some (2, [3]), some (1, [2])] = .sent [[[1]], [[2]], [[3]]] := by
+  decide
+
+example : collect 2 [some (1, [2]), none] = .waiting := by decide
+
 /-! ### non-vacuity -/
 
 theorem sortPeers_of_sorted (l : List Peer) (h : l.Pairwise (fun a b => keyLE a b)) : sortPeers l = l :=
